@@ -1,4 +1,5 @@
 import BigDec.Model.Types
+import BigDec.Model.NumDigits
 /-! Declarative specification of rounding.  A non-negative magnitude `n` is cut at `10^k`:
     kept part `q = n / 10^k`, discarded tail `r = n % 10^k`; each mode says when the magnitude is
     bumped by one unit.  `neg` tells whether the number is negative (Ceiling/Floor). -/
@@ -42,6 +43,17 @@ def roundToScale (d : Dec) (ns : Int) (m : Mode) : Dec :=
 /-- number of decimal digits (1 for zero), by definition via repeated division -/
 def numDigits (n : Nat) : Nat := if n < 10 then 1 else numDigits (n / 10) + 1
 decreasing_by omega
+
+theorem numDigits_eq_model (n : Nat) : numDigits n = BigDec.numDigits n := by
+  induction n using Nat.strongRecOn with
+  | _ n ih =>
+    unfold numDigits BigDec.numDigits
+    split
+    · rfl
+    · rw [ih (n / 10) (by omega)]
+
+@[csimp] theorem numDigits_eq_chunk : @numDigits = @BigDec.numDigitsChunk := by
+  funext n; rw [numDigits_eq_model, BigDec.numDigitsChunk_eq]
 
 /-- a decimal rounded to `p ≥ 1` significant digits under mode `m`: rounding at the scale that
     leaves `p` digits; if that carries into a new leading digit (99.9 → 100) the result keeps
